@@ -794,12 +794,12 @@ def enum_directed(tier):
 
 def plan(tier):
   from ..gen import pktspec
-  per = 300 if tier == "quick" else 3000
+  per = 300 if tier == "quick" else 8000
   shapes = pktspec.shapes(1500)
   drivers = [Enum("catalog", lambda: enum_catalog(tier), shards=4),
              Enum("directed-checksum-corners", lambda: enum_directed(tier), shards=2)]
   for name in sorted(shapes):
     def mk(name=name):
       return shapes[name].map(lambda s, name=name: {"spec": s, "shape": name})
-    drivers.append(Hyp("shape:" + name, mk, examples=per, shards=1 if tier == "quick" else 2, max_shrink_s=20))
+    drivers.append(Hyp("shape:" + name, mk, examples=per, shards=1 if tier == "quick" else 4, max_shrink_s=20))
   return drivers
